@@ -192,6 +192,9 @@ def render(doc: Doc) -> str:
 
 
 # ----------------------------------------------------------------- generation
+# call heads: the set is the last argument, after zero or more earlier arguments (curried calls)
+CALL_HEADS = ["mkDerivation", "stdenv.mkDerivation", "f", "mkDerivation", "stdenv.mkDerivation", "f",
+              "f x y", "callPackage ./pkg.nix { }", "lib.makeOverridable f x", "f (g 1) [ 2 ] x"]
 VALUES_ONE_LINE = [
     lambda r: str(r.randrange(0, 9999)),
     lambda r: '"' + r.choice(["1.2.3", "demo", "https://example.org/x.tar.gz", "a b", "é→", ""]) + '"',
@@ -339,6 +342,9 @@ class DocGen:
             if r.random() < 0.3:
                 s.trailing.append(self.comment())
             s.trailing_blank = r.random() < 0.4
+        elif self.comments and not s.entries and depth > 0 and r.random() < 0.3 * min(1.0, self.comment_rate):
+            # a set that holds nothing but a comment (`meta = {\n  # todo\n};`)
+            s.trailing = [self.comment()]
         return s
 
     def decorate(self, e: Entry, first: bool) -> None:
@@ -385,7 +391,7 @@ class DocGen:
             elif part == "lambda":
                 d.wrappers.append(("lambda", r.choice(["self", "final", "prev", "pkgs"])))
             elif part == "call":
-                d.wrappers.append(("call", r.choice(["mkDerivation", "stdenv.mkDerivation", "f"])))
+                d.wrappers.append(("call", r.choice(CALL_HEADS)))
             elif part == "with":
                 d.wrappers.append(("with", r.choice(["pkgs", "lib", "pkgs", "lib", "pkgs", "lib", "pkgs.lib"])))
             elif part == "assert":
